@@ -13,7 +13,9 @@ CONSTANTS
   UseMerge = $9
   UseSnap = ${10}
   UseDup = FALSE
+  RmVia = ${RMVIA:-FALSE}
   DumpReset = ${11}
+  ScriptName = "${SCRIPT:-none}"
   Reps <- MCReps
   Actors <- MCActors
   Keys <- MCKeys
@@ -21,7 +23,7 @@ CONSTANTS
   MvVals <- MCVals
   ActorOf <- MCActorOf
   ValDesc <- MCDesc
-INIT Init
+INIT ${INITOP:-Init}
 NEXT Next
 VIEW View
 ACTION_CONSTRAINT Edge
